@@ -81,9 +81,11 @@ def _controlled_subcircuit(rng, qs):
             return cirq.BitMaskKeyCondition(key, bitmask=1, target_value=1, equal_target=False)
         return cirq.KeyCondition(key)
 
+    # the measurement of b carries every other field a measurement can have (noisy readout, inversion): they stay with it under its new key
+    mb_kw = rng.choice([{}, {}, dict(confusion_map={(0,): np.array([[0.8, 0.2], [0.3, 0.7]])}), dict(invert_mask=(True,)), dict(invert_mask=(True,), confusion_map={(0,): np.array([[0.9, 0.1], [0.0, 1.0]])})])
     again = [cirq.Moment(cirq.X(qs[0]) ** 0.5), cirq.Moment(cirq.measure(qs[0], key="a"))] if twice else []
     inner = cirq.FrozenCircuit(g1(qs[1]).with_classical_controls(cond(f1, k1)), g2(qs[2]))
-    body_ops = [cirq.Moment(cirq.X(qs[0]) ** 0.5), cirq.Moment(cirq.measure(qs[0], key="a")), *again, cirq.Moment(cirq.X(qs[2]) ** 0.5), cirq.Moment(cirq.measure(qs[2], key="b")),
+    body_ops = [cirq.Moment(cirq.X(qs[0]) ** 0.5), cirq.Moment(cirq.measure(qs[0], key="a")), *again, cirq.Moment(cirq.X(qs[2]) ** 0.5), cirq.Moment(cirq.measure(qs[2], key="b", **mb_kw)),
                 cirq.If(cond(f2, k2), g1(qs[1]).with_classical_controls(cond(f1, k1)), g2(qs[2])) if use_if else cirq.CircuitOperation(inner).with_classical_controls(cond(f2, k2))]
     if with_c:
         body_ops.append(cirq.Moment(cirq.measure(qs[1], key="c")))
@@ -108,7 +110,7 @@ def _controlled_subcircuit(rng, qs):
         if early:
             flat.append(g2(qs[2]).with_classical_controls(cond("plain", cirq.MeasurementKey("a"))))
         flat += [cirq.X(qs[0]) ** 0.5, cirq.measure(qs[0], key=K("a"))] + ([cirq.X(qs[0]) ** 0.5, cirq.measure(qs[0], key=K("a"))] if twice else [])
-        flat += [cirq.X(qs[2]) ** 0.5, cirq.measure(qs[2], key=K("b")),
+        flat += [cirq.X(qs[2]) ** 0.5, cirq.measure(qs[2], key=K("b"), **mb_kw),
                  g1(qs[1]).with_classical_controls(cond(f1, K(k1)), cond(f2, K(k2))), g2(qs[2]).with_classical_controls(cond(f2, K(k2)))]
         if with_c:
             flat.append(cirq.measure(qs[1], key=K("c")))
@@ -245,6 +247,16 @@ def standin_key_algebra(tier, seed):
         declared = lambda o: {str(x) for x in cirq.measurement_key_objs(o)}
         if declared(op) != {str(k)}:
             continue  # this writer does not accept keys with a path at construction
+        # variants of the measurement (bits flipped, another observable) keep the key, path included
+        g_ = op.untagged.gate
+        for vname, mkv in (("with_bits_flipped", lambda: g_.with_bits_flipped(0)), ("with_observable", lambda: g_.with_observable([cirq.Z, cirq.X]))):
+            if hasattr(g_, vname):
+                cases += 1
+                try:
+                    if mkv().mkey != k:
+                        fails.append(dict(args=dict(writer=kind, key=repr(k), variant=vname), failed="writer-variant-key", clause=f"{vname} changed the key to {mkv().mkey!r}"))
+                except Exception as ex:
+                    fails.append(dict(args=dict(writer=kind, key=repr(k), variant=vname), failed="writer-variant-key", clause=f"{vname} raised {type(ex).__name__}: {ex} for a key that carries a path"))
         for m in ({"a": "c"}, {"b": "a"}, {"a": "b", "b": "a"}, {"zz": "a"}):
             cases += 1
             want = {str(cirq.with_measurement_key_mapping(k, m))}
